@@ -12,7 +12,8 @@ from lingpy.algorithm import calign, talign
 
 WORDS = ['tʰɔxtər', 'dɔːtər', 'dɔxtər', 'dotər', 'hant', 'hænd', 'hɑnt', 'hand', 'ʃtɛrn', 'stɑːr', 'stjɛrna', 'vɔlf', 'wʊlf', 'ulv',
          'fɪʃ', 'pisk', 'fisk', 'a', 'ai', 'mat͡ʃi', 'waldemar', 'woldemort', 'vladimir', 'tɕʰjɛn', 'pʰjɛn', 'kaːu̯ən', 'ɡəʃaft',
-         'θɪŋk', 'ðɪs', 'ʁoːt', 'ɾoxo', 'ɕiː', 'ɲo', 'ʋesi', 'ɦuis', 'huːs', 'haus', 'hus', 'wɔːtər', 'vasər', 'vatn', 'voda']
+         'θɪŋk', 'ðɪs', 'ʁoːt', 'ɾoxo', 'ɕiː', 'ɲo', 'ʋesi', 'ɦuis', 'huːs', 'haus', 'hus', 'wɔːtər', 'vasər', 'vatn', 'voda',
+         'ma\u0303no', 'mane\u0301', 'ma\u0303ne\u0301', 'u\u0308ber', 'o\u0308ver']      # decomposed spellings
 REFINE = ['iterate_similar_gap_sites', 'iterate_clusters', 'iterate_orphans', 'iterate_all_sequences', 'swap_check']
 
 
